@@ -165,6 +165,15 @@ func fieldRound(rng *rand.Rand, rec *ev.Rec) {
 	rec.Class("unary-form/"+names[k], 1)
 	binops(d1, e3)
 	binops(e4, d2)
+	// swap and copy on every operand form the group-law code can produce
+	// (AddReduce / SubReduce / Neg keep to reduced operands: that is all their
+	// callers pass, and their bias constants are not meant for more - feeding
+	// them unreduced forms raises alarms on correct code)
+	fa, fb := forms[rng.Intn(len(forms))], forms[rng.Intn(len(forms))]
+	x, y = fa, fb
+	curve25519.SwapConditional(&x, &y, 1)
+	curve25519.SwapConditional(&x, &y, 0)
+	curve25519.Copy(&o, &fb)
 	// serialisation of unreduced representations (the statement covers every
 	// internal representation of a residue)
 	f := forms[rng.Intn(len(forms))]
